@@ -481,3 +481,26 @@ Proof. intros Hg Hsh Hok HP. set (d := length shape).
   - exact Hwf.
   - eapply Permutation_NoDup; [apply Permutation_sym; exact HP|]. apply NoDup_filter, seq_NoDup.
   - intros a Ha. unfold st_labels. cbn [fst]. eapply Permutation_in in Ha; [|exact HP]. apply filter_In in Ha. tauto. Qed.
+From Dadi Require Import Proofs.PhiManipTable.
+Local Open Scope R_scope.
+(** ** the constructors' proportion test: 3 -> 4 and 4 -> 5 hand their proportion parameters to the helper
+    unchanged, so they reject exactly the vectors summing above 1; the 2 -> 3 constructors (2-population
+    helper, no test) reject nothing *)
+Theorem cons_rejection_characterised p : In p cons_table -> forall ps : list R, length ps = (pd_dim p - 1)%nat ->
+  (rejected (desc_args p ps) = true <-> (3 <= pd_dim p)%nat /\ 1 < nsum ps).
+Proof. intros Hin ps Hlen.
+  in_table Hin; cbn [pd_dim mkp Nat.sub] in Hlen; list_len ps Hlen;
+  cbn [pd_dim mkp pd_args];
+  try (cbn [desc_args pd_args mkp map rejected]; split; [discriminate | intros [H _]; lia]);
+  (rewrite rejected_iff by (cbn; lia));
+  cbn [desc_args pd_args mkp map eval_arg nthF nth rest_of fold_left]; unfold nsum; cbn [fold_right]; numR;
+  (split; [intros H; split; [lia | lra] | intros [_ H]; lra]). Qed.
+
+(** ** the guard-only comparison of the correspondence files is the full comparison *)
+From Dadi Require Import Base.NumD Model.PhiManipCheck.
+Lemma mcheck_guard_is_mcheck tol c : mcheck_guard tol c = mcheck tol c.
+Proof. unfold mcheck_guard. destruct (mc_valcmp c) eqn:Hv; [reflexivity|].
+  unfold guard_model, mcheck, mmodel. destruct (mc_op c); try reflexivity;
+  unfold run_desc; destruct (rejected _); cbn [option_map];
+  try (destruct (mc_raised c); reflexivity);
+  destruct (pd_dest _); cbn [option_map]; rewrite Hv; destruct (mc_raised c); reflexivity. Qed.
